@@ -3,6 +3,7 @@
 set -e
 cd "$(dirname "$0")"
 /venv/bin/python translate/tables.py
+/venv/bin/python translate/lookup.py
 /venv/bin/python translate/handlers.py
 /venv/bin/python translate/registry.py
 /venv/bin/python translate/protocol.py
